@@ -6,6 +6,7 @@ all nodes of the 14 tables of nsf_tables.ENERGY_DEPENDENT_TABLES and every
 element / isotope that has no row, against an independent reading of the
 source text (pbt/tables_c07.py), in five table configurations.
 """
+from .. import subtable
 import math
 
 from ..runner import Violation
@@ -394,7 +395,7 @@ def env(config):
     pub = periodictable.elements
 
     def private(name):
-        t = core.PeriodicTable(name)
+        t = subtable.new(name)
         mass.init(t)
         density.init(t)
         nsf.init(t)
